@@ -111,4 +111,9 @@ theorem code_MetaKey (key : Nat) (isMajor : Bool) (num : Nat) (isFlat : Bool) (h
   unfold smf.MetaKey Meta.metaKey
   cases isMajor <;> cases isFlat <;> simp [code_MetaMessage] at hk ⊢ <;> simp [hk] <;> rfl
 
+/-- `MetaSequenceNo(no uint16)` (`binary.Write(&bf, binary.BigEndian, no)` into a `bytes.Buffer`) -/
+theorem code_MetaSequenceNo (no : Nat) : smf.MetaSequenceNo no = .ok (Meta.metaSequenceNo no) := by
+  unfold smf.MetaSequenceNo Meta.metaSequenceNo
+  simp [code_MetaMessage, be16, bind, Except.bind, pure, Except.pure]
+
 end Midi.C15
